@@ -28,12 +28,16 @@ class Containers(object):
         self.cache = {}
 
     def get(self, cols, kind):
+        if len(cols) == 2 and getattr(self, 'four', False):
+            c0, c1 = cols
+            cols = [c0, c1, c0[::-1], [4 if i == 0 else 2 for i in range(len(c1))]]
         key = (json.dumps(cols), kind)
         if key in self.cache:
             return self.cache[key]
         if len(self.cache) > 4000:
             self.cache.clear()
-        mat = [[cols[0][r], cols[1][r]] for r in range(len(cols[0]))]
+        mat = [[c[r] for c in cols] for r in range(len(cols[0]))]
+        nc = len(cols)
         if kind == 'array-int':
             x = np.array(mat, dtype=np.uint16)
         elif kind == 'array-float':
@@ -42,7 +46,7 @@ class Containers(object):
             path = os.path.join(self.dir, 's.fcs')
             dt = 'F' if kind == 'sample-float32' else 'I'
             vals = [[float(v) for v in row] for row in mat] if dt == 'F' else mat
-            fcsgen.write_sample(path, vals, ['c0', 'c1'], [65536, 65536], bits=16, datatype=dt, pne=['0,0', '0,0'])
+            fcsgen.write_sample(path, vals, ['c%d' % i for i in range(nc)], [65536] * nc, bits=16, datatype=dt, pne=['0,0'] * nc)
             with warnings.catch_warnings():
                 warnings.simplefilter('ignore')
                 x = FlowCal.io.FCSData(path)
@@ -119,13 +123,15 @@ def main(chk, replay=None):
         return
     C = Containers()
     neg = False
-    runs = [(2, 'FALSE'), (2, 'TRUE')] if chk.quick else [(3, 'FALSE'), (3, 'TRUE'), (4, 'FALSE')]
+    runs = [(2, 'FALSE', 'FALSE'), (2, 'TRUE', 'FALSE'), (2, 'FALSE', 'TRUE')] if chk.quick else \
+        [(3, 'FALSE', 'FALSE'), (3, 'TRUE', 'FALSE'), (4, 'FALSE', 'FALSE'), (3, 'FALSE', 'TRUE'), (2, 'TRUE', 'TRUE')]
     gstd_obs = {'n': 0, 'max_rel_err': 0.0, 'ok': True}
-    for maxn, wide in runs:
+    for maxn, wide, four in runs:
+        C.four = four == 'TRUE'
         if maxn == 4:
             cfg_vals = 'MaxN = 4'
-        cfg = ('SPECIFICATION Spec\nCONSTANTS MaxN = %d\nWide = %s\nINVARIANT ModeIsMostFrequent\nINVARIANT MedianBetween\n'
-               'INVARIANT VarNonNeg\nINVARIANT IqrNonNeg\n') % (maxn, wide)
+        cfg = ('SPECIFICATION Spec\nCONSTANTS MaxN = %d\nWide = %s\nFour = %s\nINVARIANT ModeIsMostFrequent\nINVARIANT MedianBetween\n'
+               'INVARIANT VarNonNeg\nINVARIANT IqrNonNeg\n') % (maxn, wide, four)
         if maxn == 4:
             res = tlc.run_tlc('Gen_C12', cfg, simulate=(4000, 6), workers=1, seed=chk.seed)
             if res.violated or 'Error' in res.stdout:
@@ -134,7 +140,7 @@ def main(chk, replay=None):
         else:
             res = tlc.require_ok(tlc.run_tlc('Gen_C12', cfg, dump=True), 'Gen_C12')
             states = res.dump_states()
-        chk.add_tlc(res, 'Gen_C12[N<=%d,wide=%s]' % (maxn, wide))
+        chk.add_tlc(res, 'Gen_C12[N<=%d,wide=%s,four=%s]' % (maxn, wide, four))
         for st in states:
             if st['stage'] != 100:
                 continue
@@ -168,7 +174,8 @@ def main(chk, replay=None):
                     if not np.allclose(vec('gcv'), np.sqrt(np.exp(np.log(vec('gstd')) ** 2) - 1), rtol=1e-6, atol=1e-7):
                         idt = 'gcv=f(gstd)'
                 if r['gstd'] is not None:
-                    cols = [c0 if c == 0 else c1 for c in (form['xs'] if form['t'] != 'absent' else [0, 1])]
+                    allc = [c0, c1, c0[::-1], [4 if i == 0 else 2 for i in range(len(c1))]]
+                    cols = [allc[c] for c in (form['xs'] if form['t'] != 'absent' else list(range(4 if C.four else 2)))]
                     ref = np.array([math.exp(float(np.std(np.log(np.array(c, dtype=float))))) for c in cols])
                     err = float(np.max(np.abs(vec('gstd') - ref) / ref))
                     gstd_obs['n'] += 1
